@@ -658,7 +658,61 @@ pub fn run06(c: &Case) -> Verdict {
             break;
         }
     }
+    // (b) presence vs absence: REMOVE the absolute node altogether (the neutralised leaf above is still an absolute item, so a
+    // defect triggered by the mere presence of an absolute item -- e.g. margin-collapsing bookkeeping in block layout -- is
+    // invisible to (a)). Skipped when the container would become childless (it would then be laid out as a leaf) and for grid
+    // containers (known finding: the size estimate sees absolute children, even a bare one creates an implicit track).
+    if v.fails.is_empty() && st[parent].display != Display::Grid && node_at(&c.spec, parent).children.len() > 1 {
+        let mut spec4 = c.spec.clone();
+        remove_node(&mut spec4, target);
+        if let Some((ld, _)) = layout_all(&spec4, c.avail) {
+            for i in 0..la.len() {
+                if i >= target && i < target + cnt {
+                    continue;
+                }
+                let j = if i < target { i } else { i - cnt };
+                let is_anc = anc.contains(&i);
+                let is_sibling = flat[i].0 == Some(parent);
+                let f = diff_fields(&la[i], &ld[j], &|k| (is_anc && (k == 5 || k == 6)) || (is_sibling && k == 0));
+                if !f.is_empty() {
+                    v.fails.push((
+                        "presence".to_string(),
+                        format!(
+                            "node#{i} ({}{}) differs when absolute node#{target} (child of a {} container) is removed altogether: fields={} :: {:?} vs {:?}",
+                            disp(st[i].display),
+                            if i == parent { ", its container" } else if is_anc { ", an ancestor" } else if is_sibling { ", a sibling" } else { "" },
+                            v.parent_display,
+                            f.join(","),
+                            floats(&la[i].0),
+                            floats(&ld[j].0)
+                        ),
+                    ));
+                    break;
+                }
+            }
+        }
+    }
     v
+}
+
+/// remove the node with pre-order index `idx` (not the root) from its parent's child list
+fn remove_node(spec: &mut NodeSpec, idx: usize) {
+    fn rec(s: &mut NodeSpec, idx: usize, cur: &mut usize) -> bool {
+        let mut k = 0;
+        while k < s.children.len() {
+            *cur += 1;
+            if *cur == idx {
+                s.children.remove(k);
+                return true;
+            }
+            if rec(&mut s.children[k], idx, cur) {
+                return true;
+            }
+            k += 1;
+        }
+        false
+    }
+    rec(spec, idx, &mut 0);
 }
 
 // ------------------------------------------------------------------------------------------------ K family
